@@ -47,6 +47,10 @@ class FakeTransport(object):
 
     def write(self, data):
         self.writes.append(bytes(data))
+        # flow control: a real transport calls protocol.pause_writing() from inside write() when its buffer passes the
+        # high-water mark; `pause_at` holds the numbers of the write calls at which this one does
+        if len(self.writes) in getattr(self, "pause_at", ()) and getattr(self, "protocol", None) is not None:
+            self.protocol.pause_writing()
 
     def close(self):
         self.closes += 1
@@ -148,6 +152,7 @@ class Conn(object):
         self.loop = FakeLoop()
         self.p.loop = self.loop
         self.t = FakeTransport(peer)
+        self.t.protocol = None
         self.p.connection_made(self.t)
 
     def event(self, ev):
@@ -158,6 +163,10 @@ class Conn(object):
         try:
             if ev[0] == "d":
                 self.p.data_received(ev[1])
+            elif ev[0] == "P":
+                self.p.pause_writing()
+            elif ev[0] == "R":
+                self.p.resume_writing()
             elif ev[0] == "T":
                 self.p.on_timeout()
             elif ev[0] == "L":
